@@ -854,21 +854,5 @@ Proof.
       - rewrite IH'; auto.
         + apply orb_true_r.
         + intros C. inversion C.
-        + inversion K; assumption.
-        + inversion Hnd; assumption. }
-    rewrite Q. eauto.
-Qed.
-
-Theorem read_ok_iff b :
-  (exists h, read ec_point_ok ec_pub_of_priv b = Ok h) <->
-  (exists ks, decode_keyset b = Some ks /\ wf_keyset ks /\ Forall key_parses (ks_keys ks)).
-Proof.
-  unfold read. split.
-  - intros [h H]. destruct (decode_keyset b) as [ks|]; [|discriminate]. exists ks. split; [reflexivity|].
-    destruct (ks_keys ks) eqn:E; [discriminate|]. rewrite <- E. apply handle_from_proto_ok_iff. eauto.
-  - intros [ks [D [W P]]]. rewrite D. destruct (ks_keys ks) eqn:E.
-    + destruct W as [Hne _]. congruence.
-    + rewrite <- E in P. apply handle_from_proto_ok_iff. auto.
-Qed.
-
-End Acceptance.
+        
+Show.
